@@ -385,6 +385,16 @@ pub fn profile_for(prop: &str, tier: &str) -> Profile {
             p.malformed_pct = 5;
             p.matrix_often = true;
         }
+        // the PKE and header layers inside histories: ciphertexts and headers made under any public key, opened by
+        // any key at any later point (after rotations, refreshes, edits, store / load)
+        "C12h" => {
+            p.w_pke = 6;
+            p.w_hdr = 6;
+            p.w_encaps = 1;
+            p.w_recaps = 0;
+            p.w_edit = 3;
+            p.malformed_pct = 5;
+        }
         "C03" => {
             p.w_edit = 8;
             p.w_update = 5;
